@@ -491,3 +491,52 @@ func blockedOp(d string) string {
 	}
 	return r
 }
+
+// replaySchedule re-executes one recorded schedule of one scenario, twice, and
+// judges it with the scenario's oracle.
+func replaySchedule(m map[string]interface{}) {
+	name, _ := m["scenario"].(string)
+	var choices []int
+	for _, c := range m["choices"].([]interface{}) {
+		choices = append(choices, int(c.(float64)))
+	}
+	for _, sc := range scenarios() {
+		if sc.name != name {
+			continue
+		}
+		devnull, _ := os.OpenFile(os.DevNull, os.O_WRONLY, 0)
+		saved := os.Stdout
+		os.Stdout = devnull
+		a, b, same := vs.ReplayTwice(choices, sc.body, 3000)
+		os.Stdout = saved
+		fmt.Println("events:", a.Events)
+		fmt.Println("deadlock:", a.Deadlock, "panic:", a.PanicVal, "diverged:", a.Diverged)
+		if !same {
+			fmt.Println("REPLAY: the schedule does not reproduce (second run:", b.Events, ")")
+			return
+		}
+		sig, what := "", ""
+		switch {
+		case a.Diverged != "":
+			fmt.Println("REPLAY: the schedule no longer fits the code (", a.Diverged, ")")
+			return
+		case a.PanicVal != "":
+			sig, what = "sched:panic:"+sc.name, a.PanicVal
+		case a.Deadlock != "":
+			sig, what = "hang:"+sc.name+":"+blockedOp(a.Deadlock), a.Deadlock
+		case a.MainDone:
+			sig, what = sc.check(a)
+			if sig != "" {
+				sig += ":" + sc.name
+			}
+		}
+		if sig == "" {
+			fmt.Println("REPLAY: property holds for this schedule")
+			return
+		}
+		fmt.Println("REPLAY: violated:", sig, what)
+		ctx.Violation(sig, m)
+		return
+	}
+	fmt.Println("unknown scenario", name)
+}
